@@ -162,6 +162,10 @@ def run_case(case, tier):
             continue
         ident, tk, ts, sk, sd = out
         viol = None
+        if sk == "panic":
+            # serde_derive itself panics on this identifier (the derive fails to compile): not a program in the quantifier
+            res["notes"].append("identifiers on which serde_derive's own case conversion panics are outside the claim") if not res["notes"] else None
+            continue
         if tk != sk:
             viol = z3.BoolVal(True)
         elif tk == "ok":
